@@ -74,6 +74,7 @@ def run_bounded(inst, tier, seed, replay_dir):
            'evaluations': 0, 'valid': 0, 'distinct': 0, 'checked_clauses': 0, 'violations': [], 'samples': [],
            'error': None, 'undecided': [], 'obligations': [], 'tags': list(inst.tags)}
     seen = set()
+    reported = set()
     if getattr(inst, 'fixed_seed', False):
         seed = 0
     for i in range(n):
@@ -98,8 +99,10 @@ def run_bounded(inst, tier, seed, replay_dir):
         failed = list(nat.get('failed', []))
         if nat.get('mutated') and inst.frame:
             failed.append('frame[%s]' % ','.join(nat['mutated']))
-        if failed:
+        failed = [f_ for f_ in failed if f_ not in reported]
+        if failed and len(reported) < 8:
             for name in failed[:3]:
+                reported.add(name)
                 payload = {'property': inst.prop, 'function': inst.func, 'instance': inst.name, 'obligation': name,
                            'kind': 'bounded', 'seed': s, 'inputs': I._jsonable(nat['inputs']),
                            'native_failed': failed,
@@ -113,7 +116,7 @@ def run_bounded(inst, tier, seed, replay_dir):
                         json.dump(payload, fh, indent=1)
                 rep['violations'].append({'obligation': name, 'kind': 'bounded', 'confirmed': True, 'replay': fn,
                                           'no_input': False, 'exception': payload['native_outcome'] if nat['outcome'][0] == 'exc' else None})
-            break
+            # keep going: a failure that is a listed known finding must not hide a different violation later in the family
     rep['distinct'] = len(seen)
     rep['wall'] = round(time.time() - t0, 3)
     return rep
